@@ -277,6 +277,12 @@ namespace
             k = m.size();
             for (auto it = cc.crbegin(); it != cc.crend(); ++it) { if (k == 0 || read_ref(*it) != m[k - 1]) viol("invariant", "iter", who + "const reverse iteration differs"); --k; }
             if (k != 0) viol("invariant", "iter", who + "const reverse iteration length");
+            k = m.size();
+            for (auto it = cc.rbegin(); it != cc.rend(); ++it) { if (k == 0 || read_ref(*it) != m[k - 1]) viol("invariant", "iter", who + "reverse iteration through a const container differs"); --k; }
+            if (k != 0) viol("invariant", "iter", who + "rbegin()/rend() of a const container visit " + std::to_string(m.size() - k) + " of " + std::to_string(m.size()) + " elements");
+            if (static_cast<size_t>(cc.end() - cc.begin()) != m.size() || static_cast<size_t>(cc.cend() - cc.cbegin()) != m.size() ||
+                static_cast<size_t>(c.rend() - c.rbegin()) != m.size() || static_cast<size_t>(cc.rend() - cc.rbegin()) != m.size() || static_cast<size_t>(cc.crend() - cc.crbegin()) != m.size())
+                viol("invariant", "iter", who + "an end() - begin() distance differs from size()");
             if (static_cast<size_t>(c.end() - c.begin()) != m.size()) viol("invariant", "iter", who + "end() - begin() != size()");
             run.dig(m.size());
             for (const Elem& e : m) { run.dig(static_cast<uint64_t>(static_cast<long long>(e.first))); run.dig(static_cast<uint64_t>(static_cast<long long>(e.second))); }
